@@ -51,6 +51,9 @@ CHECKS = {
     'C17': ('LALR(1) table interrogation: the shipped yypact/yytable/... arrays are read from the AST and walked like bison\'s skeleton for every operator pair/triple; switch-arm table extraction (constructed node kinds and arities vs evaluator arms); sequencing rule on the operand iterator; CFG dominance of the zero-divisor and index-bound tests',
             'Decides exhaustively over all 225 ordered operator pairs (3375 triples in the thorough tier) how the shipped parser groups them, that every parsed operator of the set is evaluated with the arity it is built with, that operand fetches are sequenced, and that division/modulo and array indexing are guarded.',
             'Not decided: numeric results, struct/array read-back values.'),
+    'C19': ('literal-set extraction of the validator\'s vocabulary against the executor\'s dispatch chain and the engines\' state vocabulary; string-template analysis of how each data-model API method hands its argument to the language parser (statement vs expression vs location context) compared between the validator\'s and the executor\'s call for each attribute kind; message -> severity table; non-emptiness analysis of container accesses in the validator',
+            'Decides that everything the validator accepts as executable content is executed, that validator and engines agree on what a state is, that expression attributes are syntax-checked in the context in which they are later evaluated (no false syntax warnings by construction, for every in-tree data model), that the issues which make execution dereference missing states are FATAL, and that the validator does not peek into empty lists.',
+            'Not decided: soundness and completeness of the structural verdict for every document.'),
     'C20': ('type-resolved AST queries over the transformer call-graph closure (pointer insertion, address-ordered iteration, nondeterminism sources) + CFG must-pass-through for the cache guard',
             'Decides for all documents at once that no pointer value, address-ordered container iteration, address-based sort or other nondeterminism source feeds transformer output, and that cache files have no unguarded consumer.',
             'Not decided: std::hash stability (assumed), trace determinism of the interpreter beyond address-ordered iteration in the engines (thorough).'),
